@@ -1744,7 +1744,13 @@ class HasRounds(GenericHandler):
         assert isinstance(vary_rounds, int)
         lower = linear_to_native(default_rounds - vary_rounds, False)
         upper = linear_to_native(default_rounds + vary_rounds, True)
-        return cls._clip_to_desired_rounds(lower), cls._clip_to_desired_rounds(upper)
+        lower = cls._clip_to_desired_rounds(lower)
+        upper = cls._clip_to_desired_rounds(upper)
+        # ... and to the limits of the format itself (the desired window may be unset)
+        lower = max(lower, cls.min_rounds)
+        if cls.max_rounds is not None:
+            upper = min(upper, cls.max_rounds)
+        return lower, upper
 
     def __init__(self, rounds=None, **kwds):
         super().__init__(**kwds)
